@@ -14,6 +14,7 @@ import (
 	"encoding/json"
 	"fmt"
 	"strings"
+	"sync"
 	"time"
 
 	"git.metabarcoding.org/obitools/obitools4/obitools4/pkg/obiformats"
@@ -91,6 +92,7 @@ type writerRun struct {
 	hungIter bool // the iterator returned by the writer was not closed
 	hungSink bool // the sink was never closed
 	fatal    bool
+	passed   int // records delivered by the iterator the writer returns (it passes its input through)
 }
 
 // runWriter pushes the batches in `arrival` order into the real writer.
@@ -104,7 +106,7 @@ func runWriterPatience(format string, sizes, arrival []int, workers int, snk *si
 	go func() { it.WaitAndClose() }()
 	go func() {
 		for _, o := range arrival {
-			it.Push(mkBatch(o, sizes[o], format == "fastq"))
+			it.Push(mkBatch(o, sizes[o], strings.HasSuffix(format, "fastq")))
 		}
 		it.Done()
 	}()
@@ -120,6 +122,10 @@ func runWriterPatience(format string, sizes, arrival []int, workers int, snk *si
 			out, _ = obiformats.WriteFasta(it, snk, opts...)
 		case "fastq":
 			out, _ = obiformats.WriteFastq(it, snk, opts...)
+		case "auto-fasta", "auto-fastq":
+			// the writer of the commands: it looks at the first batch, pushes it back, and hands the iterator to
+			// the FASTA or FASTQ writer (whose workers are split from an iterator holding a pushed-back batch)
+			out, _ = obiformats.WriteSequence(it, snk, opts...)
 		case "json":
 			out, _ = obiformats.WriteJSON(it, snk, opts...)
 		case "csv":
@@ -136,7 +142,7 @@ func runWriterPatience(format string, sizes, arrival []int, workers int, snk *si
 	drained := make(chan struct{})
 	go func() {
 		for out.Next() {
-			out.Get()
+			r.passed += len(out.Get().Slice())
 		}
 		close(drained)
 	}()
@@ -474,5 +480,41 @@ func recordC04(env *Env) {
 	for _, j := range jobs {
 		env.emit(j)
 	}
-	env.checked = int64(len(jobs))
+	// the format-guessing writer, thousands of times on the same small stream with several workers: the workers
+	// race for the batch pushed back before they were split.  Runs with equal outcomes are logged once.
+	nst := env.optInt("pushback", 150000)
+	type outcome struct {
+		e ev
+		n int
+	}
+	var omu sync.Mutex
+	outcomes := map[string]*outcome{}
+	parallel(nst, 0, func(i int) {
+		f := []string{"auto-fasta", "auto-fastq"}[i%2]
+		j := ev{Fmt: f[5:], Sizes: []int{2, 1, 1}, Workers: 2 + i%3, Push: []int{0, 1, 2}}
+		snk := newSink()
+		r := runWriterPatience(f, j.Sizes, j.Push, j.Workers, snk, false, 30*time.Second)
+		j.Tokens = tokenize(j.Fmt, snk.bytes())
+		j.Closes = snk.closes
+		if snk.writeAfter {
+			j.After = 1
+		}
+		if r.hungIter || r.hungSink || r.fatal {
+			j.Hung = 1
+		} else if r.passed != 4 {
+			j.Tokens = append(j.Tokens, fmt.Sprintf("junk:the-iterator-returned-by-the-writer-delivered-%d-records-of-4", r.passed))
+		}
+		key := fmt.Sprint(j)
+		omu.Lock()
+		if o, ok := outcomes[key]; ok {
+			o.n++
+		} else {
+			outcomes[key] = &outcome{j, 1}
+		}
+		omu.Unlock()
+	})
+	for _, o := range outcomes {
+		env.emit(o.e)
+	}
+	env.checked = int64(len(jobs) + nst)
 }
